@@ -7,6 +7,7 @@ from checks.common import run_components, finish_standard, replay_standard
 
 COMPONENTS = [
     {'name': 'c11', 'oracle': False, 'what': 'buffer length / prefill / idempotence / wrappings through the public API'},
+    {'name': 'readimage', 'oracle': True, 'what': 'read_image / read_frame glue through the public API (stills with every ALPH variant, wrappings, size mismatches, wrong buffer lengths, animations with chunks between frames) vs Model.ReadImage'},
     {'name': 'c13', 'oracle': True, 'what': 'fill_rgb / fill_rgba planes', 'normalise': lambda s: s.replace(' SPECDIFF', '')},
     {'name': 'alpha', 'oracle': True, 'what': 'alpha application loop', 'normalise': lambda s: s.replace(' SPECDIFF', '')},
     {'name': 'c01model', 'oracle': True, 'extra': ['vp8l'], 'what': 'LosslessDecoder::decode_frame on whole payloads (prefilled buffers 0x00 / 0xFF / 0xA5, fill_buf schedules) vs Model.Lossless'},
